@@ -4,6 +4,8 @@ import (
 	"go/ast"
 	"go/types"
 	"strings"
+
+	"golang.org/x/tools/go/ssa"
 )
 
 func init() {
@@ -24,6 +26,34 @@ func checkC16(r *Run) {
 	loopReturnRuleSSA(r, "R5")
 	firstClassRule(r, "R6")
 	coreReturnRule(r, "R7")
+	r.Rule("R8", "the values bound to the parameters are owned by the activation: the buffer they are collected in is built per call, not kept in the function object or the evaluator (a nested call of the same function would overwrite it)", 1)
+	uf := r.W.userFunctionEval()
+	activationBuffersRule(r, "R8", func(fn *ssa.Function) bool {
+		return isUserFunctionCode(r.W, uf, fn)
+	}, "user-function call evaluator")
+}
+
+// isUserFunctionCode: fn is the user-function call evaluator, a closure of it, or a function that takes or is a method of the function object.
+func isUserFunctionCode(w *World, uf *FuncInfo, fn *ssa.Function) bool {
+	base := fn
+	for base.Parent() != nil {
+		base = base.Parent()
+	}
+	if uf != nil && fnObject(base) == types.Object(uf.Obj) {
+		return true
+	}
+	ut := w.NamedType("", "userFunction")
+	if ut == nil {
+		return false
+	}
+	isUT := func(t types.Type) bool {
+		n, ok := deref(t).(*types.Named)
+		return ok && n.Obj() == ut.Obj()
+	}
+	if rc := base.Signature.Recv(); rc != nil && isUT(rc.Type()) {
+		return true
+	}
+	return false
 }
 
 func exitEscapesRule(r *Run, rule string) {
